@@ -5,6 +5,7 @@
 package http3
 
 import (
+	"bytes"
 	"encoding/binary"
 	"errors"
 	"io"
@@ -301,10 +302,17 @@ func (st *stream) readPrefixedStringWithByte(firstByte byte, prefixLen uint8) (s
 	isHuffman := firstByte&hbit != 0
 
 	// TODO: Avoid allocating here.
-	data := make([]byte, size)
-	if _, err := io.ReadFull(st, data); err != nil {
+	// The size is declared by the peer and bounded only by the (also
+	// peer-declared) frame length: let the buffer grow with the bytes
+	// that actually arrive instead of allocating size bytes up front.
+	var buf bytes.Buffer
+	if _, err := io.CopyN(&buf, st, size); err != nil {
+		if err == io.EOF {
+			err = io.ErrUnexpectedEOF
+		}
 		return "", qpackReadError(err)
 	}
+	data := buf.Bytes()
 	if isHuffman {
 		// TODO: Move Huffman functions into a new package that hpack (HTTP/2)
 		// and this package can both import. Most of the hpack package isn't
